@@ -297,6 +297,13 @@ def run_script(binary, steps, trace_path=None, drain_ms=20, prefix=None, cwd=Non
             s.finish("eof", st.get("wait_ms", 4000))
             ended = True
             break
+        elif do == "close_stdout":
+            # the GUI stops reading (its end of the output pipe is closed) but keeps the input open for now
+            s.events.append({"ev": "note", "t": s.now(), "what": "stdout closed by the reader"})
+            try:
+                s.p.stdout.close()
+            except OSError:
+                pass
         elif do == "go_nowait":
             s.send(st["line"], dict(st.get("extra") or {}, go=True, notime=True))
         elif do == "eof":
